@@ -886,8 +886,8 @@ func (v Value) toReflectValue(typ reflect.Type) (reflect.Value, error) {
 		}
 	}
 
-	// FIXME Should this end up as a TypeError?
-	panic(fmt.Errorf("invalid conversion of %v (%v) to reflect.Type: %v", v.kind, v, typ))
+	// A kind nothing can be converted to (complex, chan, func, pointer): a TypeError for the script.
+	panic(conversionException(fmt.Errorf("TypeError: invalid conversion of %v (%v) to reflect.Type: %v", v.kind, v, typ)))
 }
 
 func stringToReflectValue(value string, kind reflect.Kind) (reflect.Value, error) {
